@@ -597,7 +597,7 @@ def ref_stream(defn, raw_packets, headers_only=False, combine=False, sec=0, yiel
     """expected outputs of a definition's packet generator for a stream given as its list of raw packets"""
     state = {}
     out = []
-    warnings_expected = {'segment': 0, 'length': 0}
+    warnings_expected = {'segment': 0, 'length': 0, 'parse_bad': parse_bad}
     for raw in raw_packets:
         apid = ref_bits(raw, 5, 11)
         flags = ref_bits(raw, 16, 2)
@@ -651,13 +651,16 @@ def stream_matches(real, expected):
     items = real['items']
     i = 0
     bad_seen = False
+    bad_delivered = 0
     for e in exp:
         if e[0] == 'maybe_bad':
             bad_seen = True
             if i < len(items) and type(items[i]).__name__ == 'CCSDSPacket' and bytes(items[i].raw_data) == e[1]:
                 it = items[i]
-                if it.raw_data.pos == 8 * len(it.raw_data):
-                    return False        # an over-read / undecodable packet delivered as if it were clean
+                if it.raw_data.pos == 8 * len(it.raw_data) or not warns.get('parse_bad', True):
+                    return False        # an over-read / undecodable packet delivered as if it were clean, or delivered
+                    #                     although bad packets were to be withheld
+                bad_delivered += 1
                 i += 1
             elif i < len(items) and type(items[i]).__name__ == 'UnrecognizedPacketTypeError' and \
                     getattr(items[i], 'partial_data', None) is not None and \
@@ -685,6 +688,9 @@ def stream_matches(real, expected):
         return False
     if real['raised'] is not None and not bad_seen:
         return False
+    if bad_delivered and real['raised'] is None and \
+            sum(1 for w in real['warnings'] if 'did not match' in w) < warns['length'] + bad_delivered:
+        return False                    # ... or delivered without the length-mismatch warning
     if not bad_seen:
         nlen = sum(1 for w in real['warnings'] if 'did not match' in w)
         nseg = sum(1 for w in real['warnings'] if 'ontinuation' in w)
